@@ -240,7 +240,7 @@ pub fn run(env: &mut Env, thorough: bool) {
     let targets: Vec<usize> = (t_lo..t_hi).collect();
     assert!(t_lo >= 1 && t_hi < fields);
     let quick_places = ["word", "page", "edge_lo"];
-    let hist_budget = if thorough { 2000 } else { 150 };
+    let hist_budget = if thorough { 600 } else { 150 };
     for (pname, m) in places(n, g1, thorough) {
         if !thorough && !quick_places.contains(&pname) {
             continue;
@@ -256,10 +256,10 @@ pub fn run(env: &mut Env, thorough: bool) {
             classes.truncate(5);
         }
         let max = env.max_val();
-        let full = thorough || pname == "word";
+        let full = pname == "word" || (thorough && (pname == "page" || pname == "chunk"));
 
         // ---- 1. every single operation on every target field, several neighbour patterns ----
-        let fills: &[u32] = if thorough { &[0, 1, 2, 2] } else if full { &[0, 1, 2] } else { &[2] };
+        let fills: &[u32] = if full { &[0, 1, 2] } else { &[2] };
         let near: Vec<usize> = vec![g1 * 8 / env.b - 1, g1 * 8 / env.b];
         let tg: &[usize] = if full { &targets } else { &near };
         for &fk in fills {
@@ -348,7 +348,7 @@ pub fn run(env: &mut Env, thorough: bool) {
         }
 
         // ---- 3. random histories over the whole window -------------------------------------
-        let nrand = if thorough { 4000 } else { 300 };
+        let nrand = if thorough { 1500 } else { 300 };
         let nrand = if pname == "word" { nrand } else { nrand / 5 };
         fill(env, &h, 2);
         for i in 0..nrand {
